@@ -9,7 +9,6 @@ package c22
 
 import (
 	"bytes"
-	"encoding/binary"
 	"fmt"
 	"runtime"
 	"strings"
@@ -52,22 +51,68 @@ type event struct {
 	encoded int   // bytes taken in the buffer (4 + marshalled LogEntry)
 }
 
-func payload(id, size int) []byte {
-	b := make([]byte, size)
+// payload(id,size) is a window of one fixed pseudo-random pattern; different
+// ids start at different offsets, so payloads of different events differ.
+var pattern = func() []byte {
+	b := make([]byte, 6<<20+1<<17)
+	x := uint32(2463534242)
 	for i := range b {
-		b[i] = byte(id*31 + i*7)
-	}
-	if size >= 8 {
-		binary.BigEndian.PutUint64(b, uint64(id)+1)
+		x ^= x << 13
+		x ^= x >> 17
+		x ^= x << 5
+		b[i] = byte(x >> 11)
 	}
 	return b
+}()
+
+func payload(id, size int) []byte {
+	off := (id * 131) % (1 << 17)
+	return pattern[off : off+size : off+size]
 }
 
-func partitionKey(id int) []byte { return []byte(fmt.Sprintf("/dir%d", id%3)) }
+var partitionKeys = [][]byte{[]byte("/dir0"), []byte("/dir1"), []byte("/dir2")}
+var partitionHash = []int32{util.HashToInt32(partitionKeys[0]), util.HashToInt32(partitionKeys[1]), util.HashToInt32(partitionKeys[2])}
 
+func partitionKey(id int) []byte { return partitionKeys[id%3] }
+
+func varintLen(x uint64) int {
+	n := 1
+	for x >= 0x80 {
+		x >>= 7
+		n++
+	}
+	return n
+}
+
+// encodedSize is the number of bytes the event takes in the buffer: 4 bytes of
+// length plus the marshalled filer_pb.LogEntry (checked against proto.Marshal
+// in TestPropEncodedSizeSelfCheck).
 func encodedSize(ts int64, id, size int) int {
-	b, _ := proto.Marshal(&filer_pb.LogEntry{TsNs: ts, PartitionKeyHash: util.HashToInt32(partitionKey(id)), Data: payload(id, size)})
-	return len(b) + 4
+	n := 4
+	if ts != 0 {
+		n += 1 + varintLen(uint64(ts))
+	}
+	if h := partitionHash[id%3]; h != 0 {
+		n += 1 + varintLen(uint64(int64(h)))
+	}
+	if size > 0 {
+		n += 1 + varintLen(uint64(size)) + size
+	}
+	return n
+}
+
+func TestPropEncodedSizeSelfCheck(t *testing.T) {
+	vlib.Shard0Only(t)
+	for id := 0; id < 7; id++ {
+		for _, size := range []int{0, 1, 10, 127, 128, 300, 65536, 1 << 20} {
+			for _, ts := range []int64{t0, t0 + 3*int64(interval) + 17} {
+				b, _ := proto.Marshal(&filer_pb.LogEntry{TsNs: ts, PartitionKeyHash: util.HashToInt32(partitionKey(id)), Data: payload(id, size)})
+				if len(b)+4 != encodedSize(ts, id, size) {
+					t.Fatalf("INCONCLUSIVE: harness size formula gives %d for (ts=%d,id=%d,size=%d), proto.Marshal %d", encodedSize(ts, id, size), ts, id, size, len(b)+4)
+				}
+			}
+		}
+	}
 }
 
 // ---------------------------------------------------------------- model of rotation
@@ -187,13 +232,22 @@ func recycledArrayIsSealed0() bool {
 		for i := 0; i < 4; i++ { // e1, e2, e3 each seal the previous buffer: 3 rotations
 			r.lb.AddToBuffer(partitionKey(i), payload(i, 10), t0+int64(i)*2*int64(interval))
 		}
-		b, err := r.lb.ReadFromBuffer(time.Unix(0, t0-1))
-		if err != nil || b == nil {
-			return
-		}
-		defer r.lb.ReleaseMemory(b)
-		if es, _ := parseEntries(b.Bytes()); len(es) > 0 {
-			aliasSeen = es[0].TsNs != t0 // the oldest sealed buffer no longer starts with e0
+		done := make(chan struct{})
+		go func() {
+			defer close(done)
+			b, err := r.lb.ReadFromBuffer(time.Unix(0, t0-1))
+			if err != nil || b == nil {
+				return
+			}
+			defer r.lb.ReleaseMemory(b)
+			if es, _ := parseEntries(b.Bytes()); len(es) > 0 {
+				aliasSeen = es[0].TsNs != t0 // the oldest sealed buffer no longer starts with e0
+			}
+		}()
+		select {
+		case <-done:
+		case <-time.After(spinLimit):
+			r.spun = true
 		}
 	})
 	return aliasSeen
@@ -218,6 +272,7 @@ type rig struct {
 	trace   []string
 
 	onNotify func()
+	spun     bool // a subscriber step never came back: it may hold the buffer's read lock for good
 }
 
 func parseEntries(buf []byte) ([]*filer_pb.LogEntry, error) {
@@ -277,7 +332,17 @@ func (r *rig) dispose() {
 		default:
 		}
 	}
-	r.lb.Shutdown()
+	if r.spun {
+		go func() { r.lb.Shutdown(); r.lb.VerifRelease() }() // would block behind the spinning reader
+		return
+	}
+	if raceBuild && vlib.Known(keyStop) {
+		// listed finding: Shutdown's write of isStopping races with loopInterval's
+		// unlocked read; under the race detector the buffer is abandoned instead.
+		vlib.Excluded(keyStop)
+	} else {
+		r.lb.Shutdown()
+	}
 	r.lb.VerifRelease()
 }
 
@@ -315,17 +380,28 @@ func (r *rig) releaseOne(t fataler) bool {
 		t.Fatalf("INCONCLUSIVE: harness rotation model expects queued flush #%d but flushFn was not called\n%s", r.m.released, r.history())
 	}
 	r.m.released++
-	stop := r.events[f.last].ts
-	for i := 0; ; i++ {
+	r.awaitVisible(r.events[f.last].ts)
+	return true
+}
+
+// pollUseless is set when a completed flush never showed as "resume from disk":
+// the buffer under test then signals flush completion differently (or not at
+// all) and polling again would only cost time. The reader oracle still decides.
+var pollUseless bool
+
+// awaitVisible waits until readers positioned before stop are told to resume
+// from disk, i.e. until the completion of the flush ending at stop is visible.
+func (r *rig) awaitVisible(stop int64) {
+	if pollUseless {
+		return
+	}
+	for i := 0; i < 150000; i++ {
 		b, err := r.lb.ReadFromBuffer(time.Unix(0, stop-1))
 		if b != nil {
 			r.lb.ReleaseMemory(b)
 		}
 		if err == log_buffer.ResumeFromDiskError {
-			break
-		}
-		if i > 200000 {
-			t.Fatalf("INCONCLUSIVE: flush #%d [..%d] returned from flushFn but ReadFromBuffer(stop-1ns) never answers ResumeFromDiskError; the harness cannot tell when the flush is visible\n%s", r.m.released-1, stop, r.history())
+			return
 		}
 		if i < 1000 {
 			runtime.Gosched()
@@ -333,7 +409,9 @@ func (r *rig) releaseOne(t fataler) bool {
 			time.Sleep(200 * time.Microsecond)
 		}
 	}
-	return true
+	pollUseless = true
+	r.logf("  (a completed flush up to %s never made ReadFromBuffer answer ResumeFromDiskError; the harness stops waiting for that)", rel(stop))
+	vlib.Note("C22: flush completion was not observable through ReadFromBuffer; schedules after a flush release were not fully harness-controlled")
 }
 
 type fataler interface {
@@ -473,6 +551,28 @@ func (rd *reader) step(r *rig, wait func() bool) (int, error) {
 	}
 }
 
+// spinLimit bounds one subscriber step. A step copies at most a few MiB; the
+// only way to exceed the limit is a loop that never ends inside ReadFromBuffer /
+// LoopProcessLogData (e.g. an empty non-nil buffer handed out again and again),
+// which is itself a violation: the subscriber never receives anything again.
+const spinLimit = 90 * time.Second
+
+// guardedStep is step(r,nil) with the spin watchdog.
+func (rd *reader) guardedStep(r *rig) (n int, err error) {
+	done := make(chan struct{})
+	go func() {
+		n, err = rd.step(r, nil)
+		close(done)
+	}()
+	select {
+	case <-done:
+		return n, err
+	case <-time.After(spinLimit):
+		r.spun = true
+		return 0, fmt.Errorf("reader %d (start %s) at %s: the subscriber step did not come back within %v (watchdog): ReadFromBuffer/LoopProcessLogData spins without delivering or waiting", rd.id, rel(rd.start), rel(rd.last.UnixNano()), spinLimit)
+	}
+}
+
 // complete reports whether the reader has received everything it must.
 func (rd *reader) missing(r *rig) string {
 	for rd.next < len(r.events) && r.events[rd.next].ts <= rd.start {
@@ -496,12 +596,15 @@ func (r *rig) finish(t fataler, shutdown bool) {
 	r.logf("quiesce: all flushes released")
 	for _, rd := range r.readers {
 		for i := 0; ; i++ {
-			n, err := rd.step(r, nil)
+			n, err := rd.guardedStep(r)
 			if err != nil {
 				t.Fatalf("%v\nhistory:\n%s", err, r.history())
 			}
 			if n == 0 && rd.inMemWait {
 				break
+			}
+			if n == 0 && i > 3 {
+				t.Fatalf("reader %d (start %s) at %s is told to resume from disk again and again although every flush has completed and the disk holds nothing newer: it never gets back to the in-memory events\nhistory:\n%s", rd.id, rel(rd.start), rel(rd.last.UnixNano()), r.history())
 			}
 			if i > 10000 {
 				t.Fatalf("reader %d does not reach a fixpoint\nhistory:\n%s", rd.id, r.history())
@@ -618,8 +721,8 @@ func genGap(t *rapid.T) (int64, string) {
 func genSize(t *rapid.T, big bool) int {
 	k := rapid.IntRange(0, 19).Draw(t, "sizeKind")
 	switch {
-	case big && k < 8:
-		return rapid.SampledFrom([]int{1 << 20, 1<<20 + 17, 900000, 2 << 20}).Draw(t, "bigSize")
+	case big && k < 6:
+		return rapid.SampledFrom([]int{1 << 20, 1<<20 + 17, 900000, 1400000, 2 << 20}).Draw(t, "bigSize")
 	case big && k == 8:
 		return rapid.SampledFrom([]int{4<<20 - 64, 4 << 20, 4<<20 + 100, 5 << 20}).Draw(t, "hugeSize")
 	case k < 12:
@@ -662,11 +765,11 @@ func (r *rig) startReader(t *rapid.T, st *caseStats) {
 }
 
 func TestPropSchedule(t *testing.T) {
-	vlib.Check(t, 1600, 30000, func(t *rapid.T) {
+	vlib.Check(t, 1000, 24000, func(t *rapid.T) {
 		r := newRig()
 		var st caseStats
 		defer r.dispose()
-		big := rapid.IntRange(0, 4).Draw(t, "bigPayloads") == 0
+		big := rapid.IntRange(0, 7).Draw(t, "bigPayloads") == 0
 		nSteps := rapid.IntRange(4, 70).Draw(t, "steps")
 		ts := t0
 		if rapid.Bool().Draw(t, "readerFirst") {
@@ -726,7 +829,7 @@ func TestPropSchedule(t *testing.T) {
 					}
 				}
 				d0, m0 := rd.fromDisk, rd.fromMem
-				n, err := rd.step(r, nil)
+				n, err := rd.guardedStep(r)
 				r.logf("ReaderStep r%d -> %d deliveries (%d disk, %d memory), now at %s, %s", rd.id, n, rd.fromDisk-d0, rd.fromMem-m0, rel(rd.last.UnixNano()),
 					map[bool]string{true: "waiting for a notification", false: "waiting to re-read the disk"}[rd.inMemWait])
 				if err != nil {
@@ -777,6 +880,21 @@ func bucket(n int) string {
 // collectAll runs one reader to a fixpoint without the prefix oracle and
 // returns the timestamps it was given (probes want to see everything).
 func collectAll(r *rig, start int64) (got []int64, err error) {
+	done := make(chan struct{})
+	go func() {
+		got, err = collectAllUnguarded(r, start)
+		close(done)
+	}()
+	select {
+	case <-done:
+		return got, err
+	case <-time.After(spinLimit):
+		r.spun = true
+		return nil, fmt.Errorf("subscriber loop did not come back within %v (spins)", spinLimit)
+	}
+}
+
+func collectAllUnguarded(r *rig, start int64) (got []int64, err error) {
 	last := time.Unix(0, start)
 	var memErr error
 	each := func(e *filer_pb.LogEntry) error { got = append(got, e.TsNs); return nil }
@@ -870,4 +988,269 @@ func TestFindingEvictedBeforeFlushGap(t *testing.T) {
 func TestFindingLastFlushTimeRace(t *testing.T) {
 	vlib.Finding(t, keyRace, false, "data race, visible only under -race (TestRaceFlushDuringReads with the listing removed): loopFlush writes m.lastFlushTime without the lock, ReadFromBuffer reads it under RLock; not decidable in the plain build")
 	vlib.Finding(t, keyStop, false, "data race, visible only under -race: loopInterval reads m.isStopping without the lock, Shutdown writes it under the lock; not decidable in the plain build")
+}
+
+// ---------------------------------------------------------------- concurrent part (thorough, -race)
+
+type planned struct {
+	reqTs int64
+	size  int
+	gap   string
+}
+
+// conc is the shared state of one concurrent case.
+type conc struct {
+	mu       sync.Mutex
+	cond     *sync.Cond
+	version  int64
+	finished bool
+}
+
+func (c *conc) bump() {
+	c.mu.Lock()
+	c.version++
+	c.mu.Unlock()
+	c.cond.Broadcast()
+}
+
+// waitFn returns the reader's wait function: block until something changed
+// since the reader last looked; false = the run is over and nothing changed.
+func (c *conc) waitFn(seen *int64) func() bool {
+	return func() bool {
+		c.mu.Lock()
+		for c.version == *seen && !c.finished {
+			c.cond.Wait()
+		}
+		changed := c.version != *seen
+		*seen = c.version
+		c.mu.Unlock()
+		return changed
+	}
+}
+
+func raceScenario(t *rapid.T, flushDuringReads bool) {
+	r := newRig()
+	c := &conc{}
+	c.cond = sync.NewCond(&c.mu)
+	r.onNotify = c.bump
+	defer r.dispose()
+
+	// ---- plan (all randomness drawn up front)
+	maxRot := 8
+	maxBig := 10
+	if !flushDuringReads {
+		// nothing is flushed while the readers run: stay within what memory retains
+		// (3 sealed buffers; 4 MiB are never filled with at most 3 payloads of 1 MiB)
+		maxRot = log_buffer.PreviousBufferCount
+		maxBig = 3
+		if vlib.Known(keyAlias) {
+			vlib.Excluded(keyAlias)
+			maxRot = log_buffer.PreviousBufferCount - 1
+		}
+	}
+	n := rapid.IntRange(50, 400).Draw(t, "appends")
+	plan := make([]planned, 0, n)
+	ts := t0
+	rot := 0
+	bigLeft := rapid.IntRange(0, maxBig).Draw(t, "bigPayloads")
+	for i := 0; i < n; i++ {
+		gap, gdesc := int64(1), "+1"
+		switch k := rapid.IntRange(0, 39).Draw(t, "gapKind"); {
+		case k < 12:
+		case k < 16:
+			gap, gdesc = 0, "same"
+		case k < 18:
+			gap, gdesc = -5, "-5"
+		case k < 38 || rot >= maxRot:
+			gap, gdesc = int64(rapid.IntRange(2, 1000).Draw(t, "gapNs")), "small"
+		default:
+			gap, gdesc = int64(interval)+int64(rapid.IntRange(1, 1000).Draw(t, "gapOver")), ">interval"
+			rot++
+		}
+		size := rapid.IntRange(10, 300).Draw(t, "size")
+		if bigLeft > 0 && rapid.IntRange(0, 30).Draw(t, "big") == 0 {
+			size = 1 << 20
+			bigLeft--
+		}
+		if i > 0 {
+			ts += gap
+		}
+		plan = append(plan, planned{ts, size, gdesc})
+	}
+	// effective timestamps and the complete expected event list, known before anything runs
+	pm := newModel()
+	for i, p := range plan {
+		eff := pm.clamp(p.reqTs)
+		e := event{id: i, ts: eff, reqTs: p.reqTs, size: p.size, encoded: encodedSize(eff, i, p.size)}
+		r.events = append(r.events, e)
+		pm.append(r.events, e)
+	}
+	if !flushDuringReads && pm.rotations() > maxRot {
+		t.Fatalf("INCONCLUSIVE: harness planned %d rotations, limit %d", pm.rotations(), maxRot)
+	}
+	nReaders := 3
+	for i := 0; i < nReaders; i++ {
+		var start int64
+		switch rapid.IntRange(0, 3).Draw(t, "startKind") {
+		case 0:
+			start = t0 - 1000
+		case 3:
+			start = r.events[rapid.IntRange(0, n-1).Draw(t, "startEvent")].ts + 1
+		default:
+			start = r.events[rapid.IntRange(0, n-1).Draw(t, "startEvent")].ts
+		}
+		r.readers = append(r.readers, &reader{id: i, start: start, last: time.Unix(0, start)})
+	}
+	var hist strings.Builder
+	fmt.Fprintf(&hist, "concurrent case: flushDuringReads=%v, %d appends, %d rotations planned\n", flushDuringReads, n, pm.rotations())
+	for _, rd := range r.readers {
+		fmt.Fprintf(&hist, "  reader r%d starts at %s\n", rd.id, rel(rd.start))
+	}
+	for i, p := range plan {
+		if p.gap == ">interval" || p.size >= 1<<20 || r.events[i].ts != p.reqTs || i == 0 || i == n-1 {
+			fmt.Fprintf(&hist, "  e%d gap %s ts %s, %d bytes\n", i, p.gap, rel(r.events[i].ts), p.size)
+		}
+	}
+	if raceBuild {
+		// a race report does not pass through the oracle: have the history in the log beforehand
+		fmt.Print("C22 race " + hist.String())
+	}
+
+	// ---- flusher: with flushDuringReads the gate is open from the start
+	acked := 0
+	if flushDuringReads {
+		for i := 0; i < 900; i++ {
+			r.gate <- struct{}{}
+		}
+	}
+	var ackMu sync.Mutex
+	ackCond := sync.NewCond(&ackMu)
+	stopAcks := make(chan struct{})
+	var ackWG sync.WaitGroup
+	ackWG.Add(1)
+	go func() {
+		defer ackWG.Done()
+		for {
+			select {
+			case <-r.acks:
+				ackMu.Lock()
+				acked++
+				ackMu.Unlock()
+				ackCond.Broadcast()
+				c.bump()
+			case <-stopAcks:
+				return
+			}
+		}
+	}()
+	waitFlushed := func(k int) { // flushes 0..k complete and visible
+		ackMu.Lock()
+		for acked <= k {
+			ackCond.Wait()
+		}
+		ackMu.Unlock()
+		r.awaitVisible(r.events[r.m.flushes[k].last].ts)
+	}
+
+	// ---- readers
+	var wg sync.WaitGroup
+	for _, rd := range r.readers {
+		wg.Add(1)
+		go func(rd *reader) {
+			defer wg.Done()
+			c.mu.Lock()
+			seen := c.version
+			c.mu.Unlock()
+			_, _ = rd.step(r, c.waitFn(&seen))
+		}(rd)
+	}
+
+	// ---- appender (this goroutine)
+	for i := range plan {
+		e := r.events[i]
+		if flushDuringReads {
+			if rotates, _ := r.m.willRotate(r.events, e.ts, e.encoded); rotates {
+				need := -1
+				if vlib.Known(keyGap) && r.m.sealed[0].flush >= 0 {
+					need = r.m.sealed[0].flush
+				}
+				if vlib.Known(keyAlias) && r.m.sealed[1].flush >= 0 {
+					need = r.m.sealed[1].flush
+				}
+				if need >= 0 {
+					waitFlushed(need)
+				}
+			}
+		}
+		r.lb.AddToBuffer(partitionKey(i), payload(i, e.size), e.reqTs)
+		r.m.append(r.events, e)
+		if i%7 == 0 {
+			runtime.Gosched()
+		}
+	}
+	if flushDuringReads && r.m.rotations() > 0 {
+		waitFlushed(r.m.rotations() - 1)
+	}
+	c.mu.Lock()
+	c.finished = true
+	c.version++
+	c.mu.Unlock()
+	c.cond.Broadcast()
+	joined := make(chan struct{})
+	go func() { wg.Wait(); close(joined) }()
+	select {
+	case <-joined:
+	case <-time.After(spinLimit):
+		r.spun = true
+		t.Fatalf("the readers did not come to rest within %v after the last append (watchdog): a subscriber spins or sleeps forever\nhistory:\n%s", spinLimit, hist.String())
+	}
+
+	// ---- verdict
+	fail := ""
+	for _, rd := range r.readers {
+		fmt.Fprintf(&hist, "  reader r%d: %d deliveries (%d disk, %d memory, %d resumes), at %s\n", rd.id, rd.delivered, rd.fromDisk, rd.fromMem, rd.resumes, rel(rd.last.UnixNano()))
+		if rd.failure != "" && fail == "" {
+			fail = rd.failure
+		}
+	}
+	if fail == "" && !flushDuringReads {
+		// now let the flushes complete and bring every reader to the final fixpoint
+		for i := 0; i < r.m.rotations(); i++ {
+			r.gate <- struct{}{}
+		}
+	}
+	close(stopAcks)
+	ackWG.Wait()
+	if fail == "" {
+		for _, rd := range r.readers {
+			if s := rd.missing(r); s != "" {
+				fail = s
+				break
+			}
+		}
+	}
+	if fail != "" {
+		t.Fatalf("%s\nhistory:\n%s", fail, hist.String())
+	}
+	total := 0
+	for _, rd := range r.readers {
+		total += rd.delivered
+	}
+	vlib.Case(hist.String(), r.m.rotations() >= 2 && total > 0, map[bool]string{true: "race-flush-during-reads", false: "race-appends-during-reads"}[flushDuringReads], fmt.Sprintf("rotations-%s", bucket(r.m.rotations())))
+}
+
+// Appender and 3 readers run concurrently; no flush completes while they run
+// (the flusher sits in flushFn), so everything is served from memory.
+func TestRaceAppendsDuringReads(t *testing.T) {
+	vlib.Check(t, 4, 12, func(t *rapid.T) { raceScenario(t, false) })
+}
+
+// The same with a free-running flusher: flush completions (and the switch of
+// readers to the disk stream) interleave with appends and reads.
+func TestRaceFlushDuringReads(t *testing.T) {
+	if raceBuild && vlib.Known(keyRace) {
+		vlib.Excluded(keyRace)
+		t.Skip("listed finding " + keyRace + ": a flush completing while a reader runs is reported by the race detector")
+	}
+	vlib.Check(t, 4, 12, func(t *rapid.T) { raceScenario(t, true) })
 }
